@@ -22,7 +22,7 @@ pub fn def() -> CheckDef {
 }
 
 fn info(tier: Tier) -> CheckInfo {
-    CheckInfo {
+    let mut ci = CheckInfo {
         id: "C11",
         level: "exploration",
         rule: format!(
@@ -33,7 +33,9 @@ fn info(tier: Tier) -> CheckInfo {
             "BEP42 security of a node is decided by the harness' independent CRC32C reference".into(),
             "the same-IP admission rule is the one stated in C12: per IP at most one insecure node and no two secure nodes sharing a 21-bit prefix; a candidate is refused iff an already kept node on its IP is insecure or shares its prefix".into(),
         ],
-    }
+    };
+    ci.rule.push_str(" Added: tables with members not heard from for 16 minutes; the node lists a Server puts in find_node / get_peers / get / get_signed_peers answers for main tables of 0/5/19/20/21/30 nodes x signed-peers tables of 0/1/6/19/20/25 nodes (inside or partly outside the main table) x 4 targets: at most 20, distinct, as full as the tables allow, closest first.");
+    ci
 }
 
 #[derive(Clone, Debug)]
